@@ -2,8 +2,8 @@ SPECIFICATION Spec
 CONSTANTS
   Srv = {1, 2}
   Names = {"a", "b"}
-  Clients = {1, 2}
-  MaxAtt = 4
+  Clients = {1}
+  MaxAtt = 3
   MaxCuts = 2
   MaxProxies = 2
   Dev_NoCleanup = TRUE
@@ -15,4 +15,5 @@ CONSTANTS
   Dev_RemovedForStaged = FALSE
   Dev_EnableErrorIgnored = FALSE
 INVARIANTS TypeOK UniqueNames IdsIncreasing VisibleExactly EventsOnce LiveVisible
+VIEW MCView
 CHECK_DEADLOCK FALSE
